@@ -299,7 +299,20 @@ open Lean Elab Command in
             if req.startswith("threads"):
                 # one observation per schedule step; each step's spec may list alternatives (fields use `,` for ` `)
                 fo, fs, fm = out.split(" "), spec.split(" "), mout.split(" ")
-                ok = len(fo) == len(fs) and all(self.match(b.replace(",", " "), a.replace(",", " ")) for a, b in zip(fo, fs))
+                ok = len(fo) == len(fs)
+                if ok:
+                    steps = req.split(" ")[1:]
+                    for st, a, b in zip(steps, fo, fs):
+                        if self.match(b.replace(",", " "), a.replace(",", " ")):
+                            continue
+                        # a step that is a generic request `x<t>:<request>`: the open known findings apply to it as to the plain request
+                        kf = None
+                        if st.startswith("x") and ":" in st:
+                            kf = self.known("heven " + st.split(":", 1)[1].replace("_", " "), a.replace(",", " "))
+                        if kf:
+                            self.known_hits[kf["id"]] = self.known_hits.get(kf["id"], 0) + 1
+                        else:
+                            ok = False
                 if not ok:
                     self.violations.append(("impl∉spec", req, out, spec, tag))
                 elif out != mout:
@@ -609,6 +622,11 @@ fpdec = {{ path = "{REPO}" }}
 
 
 # --------------------------------------------------------------------------- main flows
+# properties whose statement is "… under the thread's current rounding mode": their requests also run inside thread schedules
+THREAD_MIX_PROPS = ("C02", "C03", "C04", "C05", "C11", "C16")
+THREAD_MIX_N = (120, 1500, 1500)       # schedules: quick, thorough, after a broken obligation
+
+
 def run_check(prop, tier, seed):
     run = Run(prop, tier, seed)
     run.load_known()
@@ -631,6 +649,13 @@ def run_check(prop, tier, seed):
         extra = list(gen.G(seed).c19_exhaustive(3 if tier == "quick" else 4))
         run.extra["exhaustive_schedules"] = len(extra)
     lines = run.vectors(n * escalate, extra)
+    if prop in THREAD_MIX_PROPS:
+        # "under the thread's current rounding mode": the property's own requests on concurrently running OS threads, each under the
+        # mode that thread set last (model: the thread's cell; spec: that mode, HalfEven for a thread that never set one)
+        k = THREAD_MIX_N[2] if run.broken_obligations else THREAD_MIX_N[ti]
+        tm = list(gen.G(seed + 3).thread_mix(lambda m: gen.GENERATORS[prop](gen.G(seed + 4), m), k))
+        run.extra["thread_mix_schedules"] = len(tm)
+        lines = lines + tm
     run.samples = lines[run.n_corpus: run.n_corpus + 6] + lines[-6:]
     profiles = cfg["profiles"][ti]
     if run.broken_obligations:
